@@ -27,11 +27,11 @@ def transactions(H):
             txns[cur[who]] = {"who": who, "n": count[who], "uids": [], "offsets": [], "end": None, "end_outcome": None,
                               "begin_i": i, "end_i": None, "t_begin": o["t_ret"]}
             order.append(cur[who])
-        elif nm in ("ctx_ok", "ctx_exc"):
+        elif nm in ("ctx_ok", "ctx_exc", "ctx_slow"):
             if o.get("txn"):
                 count[who] = max(count[who], o["txn"])
                 key = (who, o["txn"])
-                txns[key] = {"who": who, "n": o["txn"], "uids": [], "offsets": [], "end": "commit" if nm == "ctx_ok" else "abort",
+                txns[key] = {"who": who, "n": o["txn"], "uids": [], "offsets": [], "end": "abort" if nm == "ctx_exc" else "commit",
                              "end_outcome": o["outcome"], "begin_i": i, "end_i": i, "t_begin": o["t_call"], "ctx": nm}
                 order.append(key)
                 cur[who] = None
@@ -249,7 +249,7 @@ def _legal_flags(H):
             legal = s == "IN"
             if legal:
                 state[who] = "READY"
-        elif nm in ("ctx_ok", "ctx_exc"):
+        elif nm in ("ctx_ok", "ctx_exc", "ctx_slow"):
             legal = s == "READY"
         out.append(legal)
     return out
@@ -330,7 +330,7 @@ def judge_c16(H):
                     recovered_from_abortable = True
             else:
                 exp = "raise"
-        elif nm == "ctx_ok":
+        elif nm in ("ctx_ok", "ctx_slow"):
             exp, nxt = ("ok", "READY") if state == "READY" else ("raise", state)
         elif nm == "ctx_exc":
             exp, nxt = (("raise", "RuntimeError"), "READY") if state == "READY" else ("raise", state)
@@ -343,6 +343,13 @@ def judge_c16(H):
             fault_applied = True
             in_txn_now = nxt == "IN" or (state == "IN" and nm in ("commit", "abort", "send", "burst", "offsets"))
             if kind == "fatal":
+                # a call that needs the cluster (offsets, commit, abort with data, context exit) and during which the
+                # fatal reply arrives cannot have succeeded
+                if nm in ("offsets", "commit", "ctx_ok", "ctx_slow") and state in ("IN", "READY") and legal_here(nm, state) \
+                        and fired["t"] <= o["t_ret"] + 1e-9 and o["outcome"] == "ok":
+                    V.append((f"call_succeeds_although_fatal_error_arrived_during_it:{nm}",
+                              f"program {prog}: call #{i} {o['op']} returned normally although the fatal error was served at "
+                              f"t={fired['t']} while it was running [{o['t_call']}, {o['t_ret']}]", detail))
                 state = "FATAL"
                 t_fatal = fired["t"]
                 continue
@@ -351,9 +358,9 @@ def judge_c16(H):
                 if nm in ("commit",) and state == "IN":
                     # commit may already raise the abortable error, or the error arrived after the commit completed
                     state = "ABORTABLE" if o["outcome"] != "ok" else "READY"
-                elif nm in ("abort", "ctx_exc", "ctx_ok"):
-                    state = "READY" if o["outcome"] in ("ok", "exc:RuntimeError") else ("ABORTABLE" if nm == "ctx_ok" else "READY")
-                    if nm == "ctx_ok" and o["outcome"] != "ok":
+                elif nm in ("abort", "ctx_exc", "ctx_ok", "ctx_slow"):
+                    state = "READY" if o["outcome"] in ("ok", "exc:RuntimeError") else ("ABORTABLE" if nm in ("ctx_ok", "ctx_slow") else "READY")
+                    if nm in ("ctx_ok", "ctx_slow") and o["outcome"] != "ok":
                         # commit inside the context raised: the transaction is still to be aborted
                         state = "ABORTABLE"
                 elif in_txn_now:
@@ -411,6 +418,12 @@ def judge_c16(H):
     if recovered_from_abortable:
         st["abortable_recoveries"] = 1
     return V, st
+
+
+def legal_here(nm, state):
+    if nm in ("offsets", "commit"):
+        return state == "IN"
+    return state == "READY"
 
 
 def _resync(o, fallback):
